@@ -1,6 +1,6 @@
 from xdsl.context import Context
 from xdsl.dialects import builtin, linalg
-from xdsl.ir import Block
+from xdsl.ir import Block, SSAValue
 from xdsl.parser import IRDLOperation
 from xdsl.passes import ModulePass
 from xdsl.pattern_rewriter import (
@@ -23,11 +23,25 @@ def check_kernel_equivalence(block_a: Block, block_b: Block) -> bool:
     if len(block_a.ops) != len(block_b.ops):
         return False
 
+    if [arg.type for arg in block_a.args] != [arg.type for arg in block_b.args]:
+        return False
+
+    # maps every value of block a to the corresponding value of block b
+    value_map: dict[SSAValue, SSAValue] = dict(zip(block_a.args, block_b.args))
+
     # warning: this is a bit of a naive way of checking equality between
     # kernels, but should cover all of our purposes for quite some time
     for op_a, op_b in zip(block_a.ops, block_b.ops, strict=True):
         if type(op_a) is not type(op_b):
             return False
+        # the operations must use corresponding values, in the same positions
+        if len(op_a.operands) != len(op_b.operands):
+            return False
+        if any(value_map.get(val_a) is not val_b for val_a, val_b in zip(op_a.operands, op_b.operands)):
+            return False
+        if op_a.result_types != op_b.result_types:
+            return False
+        value_map.update(zip(op_a.results, op_b.results))
 
     return True
 
